@@ -1,9 +1,11 @@
 import GoawkModel.Basic
 import GoawkModel.Drv.C16
+import GoawkModel.C19Passes
 /-! Line-protocol handler for property C19. Same program syntax as C16 (see `GoawkModel.Drv.C16`):
 `parse <iter> <program>` runs `GoawkModel.C16.parse` — the resolver with the model of Go's `orderedFuncs` — where `<iter>` names
 the simulated map iteration order (`id`, `rev`, `rot`); the answer is the full result: type table with indexes, or the error with
-the place it was raised. `order <spec> <program>` answers the function walk order. -/
+the place it was raised. `order <spec> <program>` answers the function walk order. `passes <iter> <program>` answers the number
+of resolver passes made until the verdict (`passes 2` = the error is raised in, or nothing more is determined by, the second pass). -/
 namespace GoawkModel.Drv.C19
 open GoawkModel GoawkModel.C16 GoawkModel.Drv.C16
 
@@ -26,6 +28,10 @@ def handle (args : List String) : String :=
       match parse iter p with
       | .ok s => "ok " ++ showTable p s
       | .error e => showErr e
+    | _, _ => "bad-request"
+  | "passes" :: it :: rest =>
+    match iterOf it, parseProgram rest with
+    | some iter, some p => "passes " ++ toString (passesRun p (goOrder iter p))
     | _, _ => "bad-request"
   | _ => GoawkModel.Drv.C16.handle args
 
